@@ -545,6 +545,8 @@ def cut(rng, data, policy):
         return []
     if policy in ("bytewise", "small") and n > 6000:
         policy = "edges"
+    if policy == "burst":
+        policy = "random"
     if policy == "whole":
         return [data]
     if policy == "bytewise":
@@ -592,7 +594,7 @@ def link_seg(policy):
                 return rng.choice(big + [n, f(rng, 16)])
             return f(rng, n)
         return seg
-    if policy == "whole":
+    if policy in ("whole", "burst"):
         return lambda rng, n: n
     if policy == "bytewise":
         return wrap(lambda rng, n: 1)
@@ -603,6 +605,53 @@ def link_seg(policy):
     if policy in ("random", "edges"):
         return wrap(lambda rng, n: rng.choice([1, 1, 2, 3, 5, 8, 13, 64, 1000, 70000]))
     raise ValueError(policy)
+
+
+def feed_burst(ep, chunks):
+    """Several data_received() calls back to back inside ONE read event, the loop settles once afterwards
+    (vf.world.AioEndpoint.feed_burst: what a transport does that hands over one chunk per record / internal buffer).
+    Twisted has no such notion (dataReceived is synchronous): the chunks are simply fed one after the other."""
+    if hasattr(ep, "feed_burst"):
+        return ep.feed_burst(chunks)
+    n = 0
+    for ch in chunks:
+        if ep.lost or ep.close_requested is not None:
+            break
+        if ch:
+            ep.feed(ch)
+            n += 1
+    return n
+
+
+def burst_cut(rng, data, boundaries, mode=None):
+    """Cut ``data`` into bursts (lists of 2..6 chunks).  ``boundaries`` = offsets where a unit (frame / handshake) ends.
+    mode 'boundaries': cuts only between units; 'inside': only inside units (headers, payloads); 'mixed': both."""
+    n = len(data)
+    if n < 2:
+        return [[data]] if data else []
+    mode = mode or rng.choice(["boundaries", "inside", "mixed"])
+    inner_b = sorted(b for b in set(boundaries) if 0 < b < n)
+    bset = set(inner_b)
+    inside = [o for o in range(1, n) if o not in bset]
+    # offsets right after the first octets of each unit (headers) are the interesting 'inside' cuts
+    near = [b + d for b in [0] + inner_b for d in (1, 2, 3, 4, 5) if 0 < b + d < n and (b + d) not in bset]
+    cuts = set()
+    if mode in ("boundaries", "mixed") and inner_b:
+        cuts.update(rng.sample(inner_b, rng.randint(1, min(len(inner_b), 10))))
+    if mode in ("inside", "mixed") and inside:
+        k = rng.randint(1, min(len(inside), 10))
+        pool = near if (near and rng.random() < 0.5) else inside
+        cuts.update(rng.sample(pool, min(k, len(pool))))
+    if not cuts:
+        cuts.add(rng.randint(1, n - 1))
+    offs = [0] + sorted(cuts) + [n]
+    chunks = [data[a:b] for a, b in zip(offs, offs[1:])]
+    bursts, i = [], 0
+    while i < len(chunks):
+        k = rng.randint(2, 6)
+        bursts.append(chunks[i:i + k])
+        i += k
+    return bursts
 
 
 def compositions4():
